@@ -64,8 +64,10 @@ LEVEL_TEXT = (
 TIE = ("D: bounded-exhaustive grid on the real execute_handler_once / execute_handlers_once / with_outcome "
        "(exhaustive in thorough); S: closed-loop attempt sequences under virtual time with restarts, stale "
        "event bodies, lost patches and kills between call and patch (change handlers, handler pairs), "
-       "sub-handlers via kopf.execute (incl. the children's delay), run_activity, _daemon, _timer (whole life, "
-       "idle iterations included)")
+       "sub-handlers via kopf.execute (incl. the children's delay), run_activity (one handler: the loop; several "
+       "handlers with interleaving retries: one fold per handler over the loop's iterations, records of "
+       "handlers not executed in an iteration must stay untouched), _daemon, _timer (whole life, idle iterations "
+       "included)")
 THEOREMS = [("Kopf.Props.C11", "Kopf.C11." + n) for n in [
     # one execution
     "temp_retried", "temp_retried_unlimited", "perm_final", "ignored_done", "arbitrary_by_mode", "limits_refuse",
@@ -78,6 +80,7 @@ THEOREMS = [("Kopf.Props.C11", "Kopf.C11." + n) for n in [
     "retries_bound_partial", "retries_bound_scratch_partial", "retries_bound_tight",
     "timeout_bound_partial", "timeout_refuses", "timeout_failed_for_good_partial", "timeout_sleep_past_witness",
     "timeout_sleep_past_lag_witness", "restart_invariant",
+    "retry_counts_own_attempts_partial", "uninvoked_state_unchanged", "retries_verdict_only_after_N_partial",
     # progress
     "due_is_invoked", "retried_as_event", "loop_ends_failed_retries", "loop_ends_failed_timeout",
     # in-memory loops, timers, sub-handlers
@@ -92,7 +95,8 @@ RULE = ("grid: errors mode x default mode x timeout {None,0,10s,70s} x runtime b
         "record shapes (fresh / delayed past / == now / future / success / failure), plus a day grid (ages around "
         "and beyond whole days, timeouts of 0.5 s .. 2 days, delays > 1 day; always complete); histories: random "
         "limits, scripts of (raised kind, delay, duration), wake policy per cycle (exact / early / late / at once / "
-        "restart with downtime), for change handlers and pairs also environment steps (stale body k versions "
+        "restart with downtime), activities with two handlers whose retries interleave (long vs short delays), "
+        "for change handlers and pairs also environment steps (stale body k versions "
         "back / lost patch / kill between call and patch), 30 % long flavour (day-scale times, fractional "
         "timeouts), six driver kinds; a case is distinct & non-trivial when its abstraction (limits class, raised "
         "kind, which branch the outcome took, gate) is new and not the plain-success path")
@@ -329,6 +333,9 @@ def oracle_attempt(l: dict, default_errors: str, default_backoff: int, a: dict) 
     Returns [(shape, message)] for every clause of the property that this single attempt breaks."""
     bad: list[tuple[str, str]] = []
     out, rec = a["out"], a["rec"]
+    if rec is None:
+        return [("record-missing-after-attempt", f"the attempt at {a['time']} (retry={a['retry']}) left no record: "
+                 "its outcome was not merged into the handler's state")]
     N, T = l.get("retries"), l.get("timeout")
     runtime0 = a["time"] - a["started"]
     # limits: with retries=N at most N invocations (the retry kwarg counts the previous attempts);
@@ -402,6 +409,8 @@ def oracle_sequence(l: dict, default_errors: str, default_backoff: int, events: 
     inv = [a for a in atts if a["invoked"]]
     for a in atts:
         bad += oracle_attempt(l, default_errors, default_backoff, a)
+    if any(a["rec"] is None for a in atts):
+        return bad
     if not all(e.get("view", 0) == 0 and e.get("stored", True) for e in events):
         # The environment showed the operator a stale body, lost a patch or killed it between the
         # handler call and the patch: the whole-history clauses cannot hold for a non-transactional
@@ -422,6 +431,19 @@ def oracle_sequence(l: dict, default_errors: str, default_backoff: int, events: 
             if a["retry"] != i:
                 bad.append(("retry-kwarg-sequence", f"invocation #{i} got retry={a['retry']}"))
                 break
+        # failed for good BY RETRIES only after N invocations of its own
+        done_inv = 0
+        for a in atts:
+            done_inv += 1 if a["invoked"] else 0
+            if a["out"]["exc"] == "retries" and N is not None and done_inv < N:
+                bad.append(("failed-by-retries-too-early", f"recorded as failed by retries={N} after only {done_inv} "
+                            "invocation(s)"))
+                break
+    for e in events:
+        if e["ev"] == "idle" and e.get("rec_before") is not None and e.get("rec_after") != e.get("rec_before"):
+            bad.append(("record-changed-without-execution", f"the handler was not executed at {e['time']} but its record "
+                        f"changed: {e['rec_before']} -> {e['rec_after']}"))
+            break
     # spacing and finality, over consecutive attempts
     for a, b in zip(atts, atts[1:]):
         if a["out"]["final"] or a["rec"]["success"] or a["rec"]["failure"]:
@@ -478,7 +500,7 @@ def oracle_timer_life(l: dict, series: list[list[dict]]) -> list[tuple[str, str]
             bad.append((F1_SHAPE, f"the timer was recorded as failed for good at {failed_at} and its function "
                         f"was invoked again at {first['time']} with retry={first['retry_kwarg']}"))
             break
-        if failed_at is None and atts and atts[-1]["rec"] and atts[-1]["rec"]["failure"]:
+        if failed_at is None and atts and atts[-1].get("rec") and atts[-1]["rec"]["failure"]:
             failed_at = atts[-1]["merged"]
     return bad
 
@@ -837,6 +859,22 @@ def _gen_history(rng: random.Random, kind: str, gen_limits: Any, gen_script: Any
         n = 2 if kind == "pair" else 1
         h["handlers"] = [{"id": f"h{i + 1}", "limits": gen_limits(rng), "script": gen_script(rng, not inmem)}
                          for i in range(n)]
+    if kind == "activity" and rng.random() < 0.6:
+        # two handlers whose retries interleave: A asks for long delays, B is re-invoked during A's sleep
+        slow = [[["temporary", rng.choice([3 * TPS, 5 * TPS, 8 * TPS])] if rng.random() < 0.7 else gen_raised(rng, False),
+                 rng.choice([0, 0, Q])] for _ in range(rng.choice([2, 3, 4, 6]))]
+        fast = [[rng.choice([["temporary", rng.choice([Q, TPS // 2, TPS])], ["arbitrary"], ["temporary", TPS]]),
+                 rng.choice([0, 0, Q, TPS])] for _ in range(rng.choice([3, 5, 8]))]
+        la = gen_limits(rng)
+        la["errors"] = rng.choice([None, "temporary"])
+        la["retries"] = rng.choice([None, 2, 3, 3, 4, 5])
+        lb = gen_limits(rng)
+        lb.update(errors=rng.choice([None, "temporary"]), backoff=rng.choice([Q, TPS // 2, TPS]),
+                  timeout=rng.choice([None, None, 20 * TPS]), retries=rng.choice([None, None, 6]))
+        pair = [{"id": "a", "limits": la, "script": slow}, {"id": "b", "limits": lb, "script": fast}]
+        if rng.random() < 0.5:
+            pair.reverse()
+        h["handlers"] = pair
     if kind == "timer":
         h["interval"] = rng.choice([TPS, 4 * TPS, 10 * TPS])
         h["sharp"] = rng.choice([False, True])
@@ -1138,10 +1176,11 @@ def spy_batches(log: list, on_batch: Any = None, ncalls: Any = None) -> Iterator
     def with_spy(self: Any, outcomes: Any) -> Any:
         new = real_with(self, outcomes)
         for entry in reversed(log):
-            if entry.get("outcomes") is outcomes:
+            if "after" not in entry:
                 entry["merged"] = now_ticks()
                 entry["after"] = {hid: rec_of_state(new[hid]) for hid in new}
-                break
+                entry["applied"] = sorted(str(k) for k in outcomes)
+            break
         return new
 
     K.execution.execute_handlers_once = exec_spy
@@ -1247,6 +1286,67 @@ def run_inmem_history(hist: dict) -> dict:
             "stray_calls": len(script.calls) - ci}
 
 
+def run_activity_multi(hist: dict) -> dict:
+    """The real activities.run_activity with SEVERAL scripted handlers: every iteration of its loop is
+    a batch (gate at the batch start, handlers in turn, outcomes merged after the last one)."""
+    settings = mk_settings(hist["default_backoff"])
+    scripts = {hd["id"]: Script(hd["script"]) for hd in hist["handlers"]}
+    batches: list[dict] = []
+    result: dict[str, Any] = {}
+
+    def ncalls() -> dict:
+        return {hid: len(sc.calls) for hid, sc in scripts.items()}
+
+    async def main() -> None:
+        t0 = sec(hist.get("t0", 0))
+        if t0:
+            await asyncio.sleep(t0)
+        indexers = K.indexing.OperatorIndexers()
+        registry = K.registries.OperatorRegistry()
+        for hd in hist["handlers"]:
+            registry._activities.append(mk_handler("activity", hd["id"], scripts[hd["id"]].make_fn(), hd["limits"]))
+        with spy_batches(batches, None, ncalls):
+            try:
+                await K.activities.run_activity(
+                    lifecycle=K.lifecycles.all_at_once, registry=registry, settings=settings,
+                    activity=K.causes.Activity.STARTUP, indices=indexers.indices, memo=K.ephemera.Memo())
+                result["raised"] = None
+            except K.activities.ActivityError:
+                result["raised"] = "ActivityError"
+            except BusyLoop:
+                raise
+            except Exception as e:
+                raise Escaped("run_activity", e) from e
+
+    simloop.run_sim(main, wall_limit=120.0)
+    events: dict[str, list[dict]] = {hd["id"]: [] for hd in hist["handlers"]}
+    for b in batches:
+        clock = b["t"]
+        after = b.get("after") or {}
+        for hd in hist["handlers"]:
+            hid = hd["id"]
+            calls = scripts[hid].calls[b["c0"][hid]:b["c1"][hid]]
+            before = b["before"].get(hid)
+            if hid not in b["outcomes"]:
+                if calls:
+                    events[hid].append({"ev": "called-without-outcome", "time": b["t"]})
+                events[hid].append({"ev": "idle", "time": b["t"], "done": bool(before and (before["success"] or before["failure"])),
+                                    "rec_before": before, "rec_after": after.get(hid, before)})
+                continue
+            call = calls[0] if calls else None
+            start = call["t"] if call else clock
+            end = call["end"] if call else clock
+            o = b["outcomes"][hid]
+            events[hid].append({
+                "ev": "attempt", "gate": b["t"], "time": start, "started": before["started"], "retry": before["retries"],
+                "invoked": bool(call), "calls": len(calls), "retry_kwarg": call["retry"] if call else None,
+                "x": call["x"] if call else ["ok"], "dur": call["dur"] if call else 0, "end": end,
+                "merged": b.get("merged", b["end"]), "out": out_json(o, bool(call), call["exc"] if call else None),
+                "rec": after.get(hid)})
+            clock = end
+    return {"events": events, "limits": {hd["id"]: lim_json(hd["limits"]) for hd in hist["handlers"]}, "result": result}
+
+
 def abs_steps(events: list[dict]) -> list:
     steps = []
     for e in events:
@@ -1267,7 +1367,7 @@ def impl_events(events: list[dict]) -> list:
             out.append({"ev": "attempt", "time": e["time"], "retry": e["retry"], "out": e["out"], "end": e["end"],
                         "merged": e["merged"], "rec": e["rec"]})
         else:
-            out.append({k: v for k, v in e.items() if k not in ("pi", "view", "stored")})
+            out.append({k: v for k, v in e.items() if k not in ("pi", "view", "stored", "rec_before", "rec_after")})
     return out
 
 
@@ -1290,8 +1390,9 @@ def history_checks(hist: dict) -> list[dict]:
 
 def _history_checks(hist: dict, kind: str, db: int, env: dict) -> list[dict]:
     checks = []
-    if kind in ("change", "pair", "sub"):
-        obs = run_change_history(hist)
+    multi = kind == "activity" and len(hist["handlers"]) > 1
+    if kind in ("change", "pair", "sub") or multi:
+        obs = run_activity_multi(hist) if multi else run_change_history(hist)
         for hid, events in obs["events"].items():
             l = obs["limits"][hid]
             first = next((e for e in events if e["ev"] in ("attempt", "idle")), None)
@@ -1317,6 +1418,12 @@ def _history_checks(hist: dict, kind: str, db: int, env: dict) -> list[dict]:
             checks.append(chk)
         if kind == "sub":
             checks += sub_parent_checks(hist, obs)
+        if multi:
+            failed = any(evs and evs[-1].get("rec") and evs[-1]["rec"]["failure"] for evs in
+                         ([e for e in es if e["ev"] == "attempt"] for es in obs["events"].values()))
+            if failed != (obs["result"].get("raised") == "ActivityError"):
+                checks.append({"hid": "verdict", "limits": {}, "events": [], "request": None, "impl": None,
+                               "oracle": [("activity-verdict", "ActivityError raised iff a handler failed for good — violated")]})
     else:
         obs = run_inmem_history(hist)
         l = obs["limits"]
